@@ -212,10 +212,10 @@ Proof.
 Qed.
 
 (* kinds whose cleaning does not call the recursive constructor for the reserved class id *)
-Fixpoint kind_avoids (k : pkind) : bool :=
+Fixpoint kind_avoids (M : ustring) (k : pkind) : bool :=
   match k with
-  | KEmbedded cid0 | KListOf cid0 => negb (ustr_eqb cid0 MARK)
-  | KList k' => kind_avoids k'
+  | KEmbedded cid0 | KListOf cid0 => negb (ustr_eqb cid0 M)
+  | KList k' => kind_avoids M k'
   | KObservable _ | KStixObject _ | KExtensions _ => false
   | _ => true
   end.
@@ -226,19 +226,20 @@ Proof. intros f g l E. induction l as [| x r IH]; cbn [clean_items]; [reflexivit
 Section Ext.
   Variable vr : variant.
   Variable w : world.
+  Variable M : ustring.
   Variable rc rc2 : ustring -> bool -> bool -> list (ustring * jvalue) -> result pval.
   Variable rp : bool -> bool -> list (ustring * jvalue) -> result pval.
   Variable ro : ver -> list (ustring * ustring) -> bool -> list (ustring * jvalue) -> result pval.
-  Hypothesis Hagree : forall cid0 a i x, ustr_eqb cid0 MARK = false -> rc2 cid0 a i x = rc cid0 a i x.
+  Hypothesis Hagree : forall cid0 a i x, ustr_eqb cid0 M = false -> rc2 cid0 a i x = rc cid0 a i x.
 
-  Lemma listof_items_ext : forall cid0 a i l, ustr_eqb cid0 MARK = false ->
+  Lemma listof_items_ext : forall cid0 a i l, ustr_eqb cid0 M = false ->
     listof_items rc2 cid0 a i l = listof_items rc cid0 a i l.
   Proof.
     intros cid0 a i l Hc. induction l as [| x r IH]; cbn [listof_items]; [reflexivity |].
     destruct x; try reflexivity. rewrite Hagree by exact Hc. rewrite IH. reflexivity.
   Qed.
 
-  Lemma clean_kind_ext : forall k, kind_avoids k = true ->
+  Lemma clean_kind_ext : forall k, kind_avoids M k = true ->
     forall a i jv, clean_kind vr w rc2 rp ro k a i jv = clean_kind vr w rc rp ro k a i jv.
   Proof.
     induction k; intros Hk a i jv; cbn [kind_avoids] in Hk; try discriminate; cbn [clean_kind]; try reflexivity.
@@ -292,7 +293,7 @@ Section Wrap.
   Hypothesis Hobj : match m with PJ _ => False | _ => True end.
   Hypothesis Hext : alookup ext_key K0 = None.
   Hypothesis Hav : forall sl, In sl (cslots c) -> sname sl <> d ->
-    kind_avoids (skind sl) = true \/ (sname sl = ext_key /\ sdef sl = DNone).
+    kind_avoids MARK (skind sl) = true \/ (sname sl = ext_key /\ sdef sl = DNone).
 
   Notation LHS := (assign_loop vr ev w rc rp ro c a interop vrefs (aremove d K0) [] [(d, m)]).
   Notation RSTEP := (step vr ev w rc2 rp ro (wrap_cls d c) a interop vrefs K0).
@@ -345,7 +346,7 @@ Section Wrap.
         - unfold check_property. destruct (default_value vr ev sl (assign_raw K0 [] [] n s)) as [[s2 isnow] | |]; cbn [bind fst snd]; try reflexivity.
           unfold clean_present. destruct (alookup (sname sl) s2) as [raw |]; try reflexivity.
           destruct isnow; try reflexivity. destruct raw; try reflexivity.
-          rewrite (clean_kind_ext vr w rc rc2 rp ro Hagree (skind sl) Hk). reflexivity.
+          rewrite (clean_kind_ext vr w MARK rc rc2 rp ro Hagree (skind sl) Hk). reflexivity.
         - (* the extensions property: nothing given, no default, nothing cleaned *)
           assert (Hs1 : assign_raw K0 [] [] n s = s).
           { rewrite assign_raw_spec. rewrite <- En, Hn, Hext. reflexivity. }
